@@ -1,4 +1,5 @@
 import CentrifugeVerif.Proofs.WSReader
+import CentrifugeVerif.Proofs.WSEquiv
 import CentrifugeVerif.Spec.WSSpec
 /-!
 # C29 — the WebSocket frame reader conforms to RFC 6455 and RFC 7692
@@ -14,6 +15,60 @@ theorem goValidCloseCode_conforms : CodePolicy goValidCloseCode := by
     decide_eq_true_eq, beq_iff_eq, Bool.or_eq_false_iff, Bool.and_eq_false_iff, decide_eq_false_iff_not,
     beq_eq_false_iff_ne]
   omega
+
+/-! ## The reader against the receiver specification -/
+
+/-- For every configuration (side, negotiated compression, limits, inflate function) and every byte
+stream — hence every truncation of every stream — the events the Go reader reports (data messages
+with type and bytes, pings, pongs, close with code and reason, protocol error, too big, incomplete,
+bad compressed data) are exactly those of the RFC 6455 §5 / RFC 7692 receiver specification with the
+three relaxations of `Quirks.go` (RSV1 tolerated on control and continuation frames, 1-byte close
+body treated as empty, 64-bit length with the top bit set reported as "too big"). -/
+theorem reader_eq_quirk_spec (cfg : Cfg) (input : Bytes) :
+    (runReader cfg input).events = decodeWith Quirks.go cfg goValidCloseCode input := by
+  have h := run_eq_decodeQ cfg (fuelFor input) none { input := input } ⟨rfl, rfl, rfl⟩
+  simpa [runReader, decodeWith, fuelFor] using h
+
+/-- Full statement `reader_eq_spec` (false, see the witnesses below):
+`(runReader cfg input).events = decode cfg goValidCloseCode input` for all `cfg`, `input`.
+Proved: the equality holds for every stream which the RFC decoder does not reject as a protocol
+violation; on the rejected ones the reader behaves as `reader_eq_quirk_spec` says, i.e. it rejects
+them too unless the violation is one of the three named relaxations (findings C29-1…C29-4). -/
+theorem reader_eq_spec_partial (cfg : Cfg) (input : Bytes)
+    (h : Event.protoError ∉ decode cfg goValidCloseCode input) :
+    (runReader cfg input).events = decode cfg goValidCloseCode input := by
+  rw [reader_eq_quirk_spec]
+  exact decodeQ_go_eq_rfc cfg goValidCloseCode _ none input h
+
+/-- the relaxed specification coincides with the RFC specification wherever the latter sees no
+protocol violation (so the relaxations are exactly the three rejected-by-RFC situations) -/
+theorem quirks_only_on_violations (cfg : Cfg) (accept : Nat → Bool) (input : Bytes)
+    (h : Event.protoError ∉ decode cfg accept input) :
+    decodeWith Quirks.go cfg accept input = decode cfg accept input :=
+  decodeQ_go_eq_rfc cfg accept _ none input h
+
+/-! Witnesses that the unrestricted `reader_eq_spec` is false on the real reader
+(findings C29-1, C29-2, C29-3, C29-4; each is replayed on the Go code by the check). -/
+def deflateClient : Cfg := { server := false, deflate := true, readLimit := 0, inflatedLimit := 0, inflate := fun _ => none }
+def plainClient0 : Cfg := { server := false, deflate := false, readLimit := 0, inflatedLimit := 0, inflate := fun _ => none }
+
+-- RSV1 on a pong (control frame)
+example : (runReader deflateClient [0xca, 0x01, 0x78]).events = [.pong [0x78], .incomplete] ∧
+    decode deflateClient goValidCloseCode [0xca, 0x01, 0x78] = [.protoError] := by decide
+-- RSV1 on a continuation frame
+example : (runReader deflateClient [0x01, 0x01, 0x61, 0xc0, 0x01, 0x62]).events = [.msg 1 [0x61, 0x62], .incomplete] ∧
+    decode deflateClient goValidCloseCode [0x01, 0x01, 0x61, 0xc0, 0x01, 0x62] = [.protoError] := by decide
+-- 1-byte close body
+example : (runReader plainClient0 [0x88, 0x01, 0xff]).events = [.close 1005 []] ∧
+    decode plainClient0 goValidCloseCode [0x88, 0x01, 0xff] = [.protoError] := by decide
+-- 64-bit length with the most significant bit set
+example : (runReader plainClient0 [0x82, 0x7f, 0x80, 0, 0, 0, 0, 0, 0, 0]).events = [.tooBig] ∧
+    decode plainClient0 goValidCloseCode [0x82, 0x7f, 0x80, 0, 0, 0, 0, 0, 0, 0] = [.protoError] := by decide
+/-- non-vacuity of `reader_eq_spec_partial`: a fragmented message with an interleaved ping, then close -/
+example : Event.protoError ∉ decode plainClient0 goValidCloseCode
+      [0x01, 0x01, 0x61, 0x89, 0x00, 0x80, 0x01, 0x62, 0x88, 0x02, 0x03, 0xe8] ∧
+    decode plainClient0 goValidCloseCode [0x01, 0x01, 0x61, 0x89, 0x00, 0x80, 0x01, 0x62, 0x88, 0x02, 0x03, 0xe8]
+      = [.ping [], .msg 1 [0x61, 0x62], .close 1000 []] := by decide
 
 /-! ## Frames written back, totality -/
 
